@@ -130,13 +130,13 @@ pub fn konst(rng: &mut Rng) -> i64
 	}) as i64
 }
 
-/// leaves: `names` (drawn with probability 3/5 when there are any) with their intervals, else a constant
-pub struct Leaves<'a> { pub names: &'a [(Ex, Iv)] }
+/// leaves: `names` (drawn with probability 3/5 when there are any) with their intervals, else a constant (bits of `kmask` only)
+pub struct Leaves<'a> { pub names: &'a [(Ex, Iv)], pub kmask: i64 }
 
 fn leaf(rng: &mut Rng, lv: &Leaves) -> (Ex, Iv)
 {
 	if !lv.names.is_empty() && rng.chance(3, 5) { return rng.pick(lv.names).clone(); }
-	let k = konst(rng);
+	let k = konst(rng) & lv.kmask;
 	(Ex::Num(k), (k as i128, k as i128))
 }
 
@@ -185,7 +185,7 @@ pub fn gen_with(rng: &mut Rng, depth: u32, lv: &Leaves, must: &[String]) -> (Ex,
 	let (n, ni) = (*rng.pick(&cands)).clone();
 	for _ in 0..8
 	{
-		let k = konst(rng);
+		let k = konst(rng) & lv.kmask;
 		let op = *rng.pick(&[ADD, SUB, XOR, OR, AND, MUL]);
 		let (l, li, r, ri) = if rng.chance(1, 2) { (n.clone(), ni, Ex::Num(k), (k as i128, k as i128)) } else { (Ex::Num(k), (k as i128, k as i128), n.clone(), ni) };
 		if let Some(iv) = combine(op, li, ri) { return (Ex::Bin(op, Box::new(l), Box::new(r)), iv); }
